@@ -17,6 +17,8 @@ import (
 	"fmt"
 	"os"
 	"os/exec"
+	"reflect"
+	"sort"
 	"strings"
 	"testing"
 	"time"
@@ -103,6 +105,23 @@ func c14sGen(rnd *vRand, n int) []c14sCase {
 			add(k, c14sEnvelope(ty, rnd.Bytes(rnd.Intn(24))))
 		}
 	}
+	// propagated requests, structurally: every operation code with its operation message absent,
+	// present-but-empty, and filled in to depth 1..3 with empty nested messages (a decoder accepts
+	// all of these; the handlers behind it must not dereference what is missing)
+	var ops []int
+	for o := range proto.Op_name {
+		ops = append(ops, int(o))
+	}
+	sort.Ints(ops)
+	for _, o := range ops {
+		for depth := 0; depth <= 3; depth++ {
+			req := &proto.PropagatedRequest{Op: proto.Op(o)}
+			c14sPopulate(reflect.ValueOf(req).Elem(), depth)
+			if b, err := proto.MarshalPropagatedRequest(req); err == nil {
+				add("propagate", b)
+			}
+		}
+	}
 	// replication responses are delivered to a follower's private inbox; none exists on a single node
 	for i := 0; i < n; i++ {
 		k := append([]string{"stream", "stream"}, kinds...)[rnd.Intn(2+len(kinds))]
@@ -117,6 +136,29 @@ func c14sGen(rnd *vRand, n int) []c14sCase {
 		add(k, d)
 	}
 	return cs
+}
+
+// c14sPopulate sets every message-typed field (and one element of every repeated message field)
+// of v to an empty message, recursively down to the given depth; scalars stay zero.
+func c14sPopulate(v reflect.Value, depth int) {
+	if depth <= 0 || v.Kind() != reflect.Struct {
+		return
+	}
+	for i := 0; i < v.NumField(); i++ {
+		f := v.Field(i)
+		if !f.CanSet() || strings.HasPrefix(v.Type().Field(i).Name, "XXX_") {
+			continue
+		}
+		switch {
+		case f.Kind() == reflect.Ptr && f.Type().Elem().Kind() == reflect.Struct:
+			f.Set(reflect.New(f.Type().Elem()))
+			c14sPopulate(f.Elem(), depth-1)
+		case f.Kind() == reflect.Slice && f.Type().Elem().Kind() == reflect.Ptr && f.Type().Elem().Elem().Kind() == reflect.Struct:
+			e := reflect.New(f.Type().Elem().Elem())
+			c14sPopulate(e.Elem(), depth-1)
+			f.Set(reflect.Append(reflect.MakeSlice(f.Type(), 0, 1), e))
+		}
+	}
 }
 
 func TestVerifC14ServerChild(t *testing.T) {
